@@ -201,7 +201,8 @@ ExpStatus == IF phase # "completed" THEN "no_key"
 (* model checking: the environment does anything, the peripheral anything the enforced guards allow *)
 CONSTANTS Configs,      \* set of cfg records
           Requests,     \* set of request records [io, oob, auth, maxkey, idist, rdist]
-          Opcodes       \* SMP opcodes the environment uses (0..15 in the thorough tier)
+          Opcodes,      \* SMP opcodes the environment uses (0..15 in the thorough tier)
+          LenClasses    \* length classes the environment uses (0 correct, 1 too short, 2 too long)
 
 Init == \E c \in Configs : InitWith(c)
 
@@ -210,7 +211,7 @@ RAuth == (IF cfg.kind = "legacy" THEN 0 ELSE 8) + (IF cfg.mitm THEN 4 ELSE 0) + 
 
 Next ==
     \/ \E r \in Requests, o \in Outs, a \in LescMethods : Req(r, o, RAuth, a)
-    \/ \E op \in Opcodes, lc \in 0..2, label \in 0..1, o \in Outs, sh \in BOOLEAN : Pdu(op, lc, label, o, sh)
+    \/ \E op \in Opcodes, lc \in LenClasses, label \in 0..1, o \in Outs, sh \in BOOLEAN : Pdu(op, lc, label, o, sh)
     \/ \E o \in Outs : Poll(o)
     \/ \E b \in BOOLEAN : User(b) \/ Enc(b)
     \/ \E w \in 0..3, f \in BOOLEAN, k \in {"cur", "old"}, s \in BOOLEAN : Find(w, f, k, s)
